@@ -190,17 +190,20 @@ theorem registry_seq (s : Bytes) (ops : List RegOp) :
   cases lastOp s ops <;> simp [Registry.dial]
 
 def evOf : String → Option MuEvent
-  | "lock" => some .lock | "unlock" => some .unlock | "access" => some .access | _ => none
+  | "lock" => some .lock | "unlock" => some .unlock | "access" => some .access | "dispatch" => some .dispatch | _ => none
 
 /-- **Mutex discipline (regenerated fact):** in /repo's current source every function touching the
-dialer map does so only between `mu.Lock()` and `mu.Unlock()`, and at least the three API functions do.
+dialer map does so only between `mu.Lock()` and `mu.Unlock()`, at least the three API functions do, and
+`DialURLContext` calls the dialer it looked up only after releasing the lock (a dial in flight - which
+may last minutes or dial through the registry itself - never blocks register/unregister/dial).
 This is what licenses the atomic-step registry model for concurrent callers. -/
 theorem mutex_guarded :
     Gen.dialersMutexEvents.all (fun f => match f.2.mapM evOf with
       | some evs => guarded false evs
       | none => false) = true
     ∧ ["DialURLContext", "RegisterContextDialer", "UnregisterDialer"].all
-        (fun n => Gen.dialersMutexEvents.any (·.1 == n)) = true := by
+        (fun n => Gen.dialersMutexEvents.any (·.1 == n)) = true
+    ∧ Gen.dialersMutexEvents.any (fun f => f.1 == "DialURLContext" && f.2.contains "dispatch") = true := by
   decide
 
 /-- Non-vacuity: a concrete URL path with two digipeaters. -/
